@@ -415,3 +415,44 @@ def r11_leq_walks_right_map(ctx):
 
 
 RULES += [r11_leq_walks_right_map]
+
+
+def r12_rename_is_exact(ctx):
+    ctx.rule("C04.r12", "rename is EXACT in every domain: it never resets a component to top (nor forgets one). The array domains rename the "
+             "ghost variables of BOTH operands of an inclusion test; a rename that weakens its value weakens the right operand and "
+             "the test answers yes for a left operand that is not included", floor=20)
+    n = 0
+    seen = set()
+    for f in ctx.db.files():
+        if not f.startswith("include/crab/domains/"):
+            continue
+        for fn in ctx.db.fns(f, name="rename"):
+            if not fn.get("body") or fn["pk"] in seen or len(fn.get("params", [])) != 2:
+                continue
+            seen.add(fn["pk"])
+            n += 1
+            body = fn["body"]
+            bad = None
+            for x in walk(body):
+                lhs = rhs = None
+                if x.get("k") == "asg":
+                    lhs, rhs = strip(x.get("L")), x.get("R")
+                elif x.get("k") == "call" and x.get("op") == "=" and "o" in x and x.get("a"):
+                    lhs, rhs = strip(x["o"]), x["a"][0]
+                if lhs is not None and is_field(lhs) and is_call(strip_move(rhs), name=("top", "make_top")):
+                    bad = (x, "`%s` is reset to top" % lhs.get("n"))
+                    break
+                if is_call(x, name=("set_to_top",)) and ("o" not in x or is_this(strip(x.get("o"))) or is_field(strip(x.get("o")))):
+                    bad = (x, "`%s`" % src(x)[:40])
+                    break
+            if bad:
+                ctx.bad("%s::rename weakens the value (%s): array_adaptive / array_smashing rename the ghost variables of both operands of "
+                        "`<=`, so {b = -3} <= {p == q} answers yes through the array domain although p = 1, q = 0 is a state of the left "
+                        "operand only" % (fn["cpk"] or fn["pk"], bad[1]), fn, bad[0], sig="rename-resets:%s" % (fn.get("cpk") or "").split("::")[-1])
+            else:
+                ctx.ok("%s::rename resets nothing" % (fn.get("cpk") or fn["pk"]).split("::")[-1], fn, body)
+    if n == 0:
+        ctx.fail("rule C04.r12: no rename implementation found")
+
+
+RULES += [r12_rename_is_exact]
